@@ -10,15 +10,15 @@ ID = "C16"
 RULE = (
     "KNNSupervisedOPF and UnsupervisedOPF fits as in C13 with max_k >= 2 forced in ~80% of the cases (the suite never exceeds 1). The criterion is observed from outside: "
     "opfython.math.general.opf_accuracy (KNN) and the instance's _normalized_cut (unsupervised) are wrapped to record (subgraph.best_k at call time, value). "
-    "Oracle KNN: candidates are exactly 1..max_k in order, each recorded accuracy equals the C20 reference on the recorded labels/predictions, best_k == smallest k with the maximal value, "
+    "Oracle KNN: candidates are exactly 1..max_k in order, the validation predictions of candidate k equal those of a model built from scratch with that k alone (fresh sub-graph), each recorded accuracy equals the C20 reference on the recorded labels/predictions, best_k == smallest k with the maximal value, "
     "and the final model is built with it (stored min/max density == reference pdf over the best_k smallest distances with the stored constant). "
     "Oracle unsupervised: each recorded cut equals an independent evaluation of the normalised cut on the live sub-graph (all arcs incl. plateau arcs); candidates are min_k, min_k+1, ... contiguous, stopping early only after a cut == 0.0, best_k == first arg-min, final adjacency length and stored density range consistent with best_k. "
     "non-trivial: >= 2 candidates with >= 2 distinct criterion values and the best is not the first candidate; distinct by case hash"
 )
 ASSUMPTIONS = ["criterion values are taken as the library computes them (accuracy additionally re-computed from the recorded arguments with the C20 reference)"]
 BUDGET = {
-    "quick": {"examples": 4000, "shards": 8, "min_nontrivial": 150},
-    "thorough": {"examples": 40000, "shards": 16, "min_nontrivial": 2000, "max_wall": 3000},
+    "quick": {"examples": 9600, "shards": 16, "min_nontrivial": 150},
+    "thorough": {"examples": 160000, "shards": 16, "min_nontrivial": 2000, "max_wall": 3000},
 }
 
 
@@ -57,6 +57,28 @@ def check_case(case):
             if all(0 <= p <= max(lab) for p in pr):
                 ref = ref_accuracy(lab, pr)
                 require(abs(v - ref) <= 1e-12, "knn:criterion_is_validation_accuracy", lambda: "k=%d accuracy %r, definition gives %r" % (k, v, ref))
+        # differential: candidate k evaluated inside the search loop == a model built from scratch with that k alone
+        # (fresh sub-graph, arcs, density, clustering through the library's own routines, then predict on the validation set)
+        from ..common import lib, models
+        from ..common.lib import libcall
+        from opfython.subgraphs.knn import KNNSubgraph
+
+        fa = r.fit_args
+        np = models.np()
+        for k, v, lab, pr in crit:
+            kw = {"distance": case["metric"]} if case["mode"] == "feat" else {}
+            m2 = libcall(models.classes()["knn"], max_k=case["max_k"], **kw)
+            if case["mode"] == "pre":
+                m2.pre_computed_distance = True
+                m2.pre_distances = np.asarray(r.model.pre_distances).copy()
+            sg = libcall(KNNSubgraph, fa["Xtr"].copy(), fa["Y"].copy(), None if fa["I_tr"] is None else fa["I_tr"].copy())
+            m2.subgraph = sg
+            sg.best_k = k
+            libcall(sg.create_arcs, k, m2.distance_fn, m2.pre_computed_distance, m2.pre_distances)
+            libcall(sg.calculate_pdf, k, m2.distance_fn, m2.pre_computed_distance, m2.pre_distances)
+            libcall(m2._clustering)
+            p2 = [int(x) for x in libcall(m2.predict, fa["Xv"].copy(), None if fa["I_v"] is None else fa["I_v"].copy())]
+            require(p2 == pr, "knn:candidate_k_is_the_plain_k_model", lambda: "k=%d: the search loop's validation predictions %r differ from those of a model built from scratch with k=%d: %r" % (k, pr, k, p2))
         exp = ks[vals.index(max(vals))]
         require(best == exp, "knn:smallest_k_with_highest_accuracy", lambda: "best_k=%d, accuracies per k: %r -> expected %d" % (best, list(zip(ks, vals)), exp))
     else:
